@@ -23,7 +23,7 @@ import (
 
 type sndwWorld struct {
 	local  *spine.DeviceLocal
-	w      *h.W
+	w      *sndW
 	rd     api.DeviceRemoteInterface
 	lfs    []api.FeatureLocalInterface
 	rfs    []api.FeatureRemoteInterface
@@ -37,7 +37,7 @@ func newSndwWorld() *sndwWorld {
 	l := spine.NewDeviceLocal("b", "m", "s", "c", "HEMS", model.DeviceTypeTypeEnergyManagementSystem, model.NetworkManagementFeatureSetTypeSmart)
 	e1 := spine.NewEntityLocal(l, model.EntityTypeTypeCEM, spine.NewAddressEntityType([]uint{1}), time.Second*4)
 	l.AddEntity(e1)
-	sw := &sndwWorld{local: l, w: &h.W{}, hashes: map[string]int{}, inCtr: 100}
+	sw := &sndwWorld{local: l, w: &sndW{}, hashes: map[string]int{}, inCtr: 100}
 	for i := 0; i < 2; i++ {
 		var f api.FeatureLocalInterface
 		if i == 0 {
@@ -167,15 +167,60 @@ func runSenderWorld(r *h.Report, d *h.Driver, ops []string, base int) {
 		var impl []string
 		kind := f[0]
 		switch f[0] {
-		case "rrd": // rrd <localFeature> <fn> <remoteFeature>
+		case "rrd", "rrdf":
+			// rrd <localFeature> <fn> <remoteFeature>; rrdf: the peer's reply to this very request arrives as a real
+			// datagram (HandleSpineMesssage on another goroutine) while the request is still being written
 			li, _ := strconv.Atoi(f[1])
 			fi, _ := strconv.Atoi(f[2])
 			ri, _ := strconv.Atoi(f[3])
-			ctr, err := sw.lfs[li%2].RequestRemoteData(sndwFns[fi%len(sndwFns)], nil, nil, sw.rfs[ri%len(sw.rfs)])
+			var ctr *model.MsgCounterType
+			var err *model.ErrorType
+			var flown uint64
+			inside := false
+			if f[0] == "rrdf" {
+				doneCh := make(chan struct{})
+				sw.w.hook = func(m []byte) {
+					c := sndCounterOf(m)
+					if c == 0 || flown != 0 {
+						return
+					}
+					flown = c
+					sw.inCtr++
+					cls := model.CmdClassifierTypeReply
+					hd := model.HeaderType{AddressSource: sw.rfs[ri%len(sw.rfs)].Address(), AddressDestination: sw.lfs[li%2].Address(), MsgCounter: util.Ptr(model.MsgCounterType(sw.inCtr)), MsgCounterReference: util.Ptr(model.MsgCounterType(c)), CmdClassifier: &cls}
+					go func() {
+						sw.inject(model.DatagramType{Header: hd, Payload: model.PayloadType{Cmd: []model.CmdType{{LoadControlLimitListData: &model.LoadControlLimitListDataType{}}}}})
+						close(doneCh)
+					}()
+					if sndRespSerialised {
+						return
+					}
+					select {
+					case <-doneCh:
+						inside = true
+					case <-time.After(20 * time.Second):
+						sndRespSerialised = true
+					}
+				}
+				ctr, err = sw.lfs[li%2].RequestRemoteData(sndwFns[fi%len(sndwFns)], nil, nil, sw.rfs[ri%len(sw.rfs)])
+				sw.w.hook = nil
+				if flown != 0 && !inside {
+					select {
+					case <-doneCh:
+					case <-time.After(20 * time.Second):
+					}
+				}
+				h.Settle(base)
+			} else {
+				ctr, err = sw.lfs[li%2].RequestRemoteData(sndwFns[fi%len(sndwFns)], nil, nil, sw.rfs[ri%len(sw.rfs)])
+			}
 			done = append(done, op)
 			// the hash of a request covers destination and command only, not the requesting feature
 			hid := sw.hashID(fmt.Sprintf("%d-%d", ri%len(sw.rfs), fi%len(sndwFns)))
 			lines = []string{fmt.Sprintf("req %d", hid)}
+			if f[0] == "rrdf" && (flown == 0 || inside) {
+				lines = []string{fmt.Sprintf("reqf %d 0", hid)}
+			}
 			ws := sw.wire()
 			var cs []uint64
 			for _, o := range ws {
@@ -189,19 +234,39 @@ func runSenderWorld(r *h.Report, d *h.Driver, ops []string, base int) {
 			impl = []string{fmt.Sprintf("%d %d", *ctr, len(ws))}
 			prev, pending := sp.unanswered[hid]
 			switch {
+			case len(ws) == 0 && !pending && sp.overtaken[uint64(*ctr)]:
+				r.SpecFail("answer-overtakes-insert", done, fmt.Sprintf("stack level: request %s withheld (returned %d) although request %d was answered — the peer's reply was processed while the request was being written", op, *ctr, *ctr))
 			case len(ws) == 0 && !pending:
 				r.SpecFail("withheld-without-identical-unanswered", done, fmt.Sprintf("stack level: request %s withheld (returned %d) although no identical request is unanswered", op, *ctr))
 			case len(ws) == 0 && pending && uint64(*ctr) != prev:
 				r.SpecFail("withheld-wrong-counter", done, fmt.Sprintf("stack level: withheld request returned %d, the unanswered identical request has %d", *ctr, prev))
-			case len(ws) == 1 && ws[0].ctr != uint64(*ctr):
+			case len(ws) >= 1 && ws[0].ctr != uint64(*ctr):
 				r.SpecFail("returned-counter-not-on-wire", done, fmt.Sprintf("returned %d, wrote %d", *ctr, ws[0].ctr))
 			}
-			if len(ws) == 1 {
+			if len(ws) >= 1 {
 				sp.unanswered[hid] = ws[0].ctr
 				kind = "rrd:sent"
 			} else {
 				kind = "rrd:withheld"
 				withheld++
+			}
+			if flown != 0 {
+				if inside {
+					sp.overtaken[flown] = true
+					kind += ":answered-in-flight"
+				}
+				if sp.answer(flown) {
+					hits++
+				}
+				if !inside {
+					lines = append(lines, fmt.Sprintf("resp %d", flown))
+					impl = append(impl, "ok")
+				}
+				// whatever the stack wrote while processing the reply
+				for _, o := range ws[1:] {
+					lines = append(lines, "other")
+					impl = append(impl, fmt.Sprint(o.ctr))
+				}
 			}
 		case "in": // in <classifier> <ref|-> : datagram from the peer's server feature 1 to local client feature
 			sw.inCtr++
@@ -313,7 +378,11 @@ func genSenderWorld(rng interface{ Intn(int) int }, n int) []string {
 			if rng.Intn(8) == 0 {
 				li = 1
 			}
-			ops = append(ops, fmt.Sprintf("rrd %d %d %d", li, rng.Intn(3), rng.Intn(3)))
+			k := "rrd"
+			if rng.Intn(8) == 0 {
+				k = "rrdf"
+			}
+			ops = append(ops, fmt.Sprintf("%s %d %d %d", k, li, rng.Intn(3), rng.Intn(3)))
 			issued++
 		case x < 85:
 			cls := []string{"reply", "result", "notify"}[rng.Intn(3)]
@@ -342,11 +411,23 @@ func TestSenderWorld(t *testing.T) {
 	d := h.StartDriver("drv_snd")
 	defer d.Close()
 	base := h.Baseline()
+	on, wit, det := probeInsertAfterWrite()
+	r.SetFlag("insertAfterWrite", on, wit, det)
+	if !on {
+		d.Ask("cfg insertfirst 1")
+	}
+	// the member the translator reads off the source (Spine.Generated.Sender.requestRemembersBeforeWrite) must be the
+	// member the probe finds on the running code
+	if static := d.Ask("member"); (static == "after-window") != on {
+		r.Mismatch(wit, fmt.Sprintf("probed: an answered-in-flight request stays remembered = %v (%s)", on, det), "source says: "+static, "family member: static fact vs dynamic probe")
+	}
 	if ops := h.ReplayOps("sender-world"); ops != nil {
 		runSenderWorld(r, d, ops, base)
 		return
 	}
 	runSenderWorld(r, d, []string{"rrd 0 0 0", "rrd 0 0 0", "rrd 0 1 0", "in reply 1", "rrd 0 0 0", "in result 2", "rrd 0 1 0", "in read -", "rrd 0 0 1"}, base)
+	// the peer's reply arrives while the request is being written; the identical request afterwards
+	runSenderWorld(r, d, []string{"rrdf 0 0 0", "rrd 0 0 0", "rrd 0 1 0", "rrdf 0 1 0", "in reply 5", "rrd 0 1 0", "rrdf 1 0 1", "rrd 0 0 1"}, base)
 	for _, fault := range []string{"nosrc", "noent", "nodst", "nofn", "nocmd"} {
 		// a response whose processing fails still answers the request: the next identical request is sent
 		runSenderWorld(r, d, []string{"rrd 0 0 0", "rrd 0 0 0", "in reply 4 " + fault, "rrd 0 0 0", "in result 5 " + fault, "rrd 0 0 0"}, base)
